@@ -169,10 +169,16 @@ def execute_step(m: Machine, step, prop_of):
                 e.obj.transform(Tm)
                 e.model.left(Rt, tt)
             elif mode == "right":
-                e.obj.transform(Tm, right_mul=True)
+                if step.get("positional"):
+                    e.obj.transform(Tm, True)
+                else:
+                    e.obj.transform(Tm, right_mul=True)
                 e.model.right(Rt, tt)
             else:
-                e.obj.transform(Tm, right_mul=True, propagate=True)
+                if step.get("positional"):
+                    e.obj.transform(Tm, True, True)
+                else:
+                    e.obj.transform(Tm, right_mul=True, propagate=True)
                 e.model.right_propagate(Rt, tt)
             m.probe_hit("transform_" + mode)
             receivers.append(e)
@@ -244,9 +250,14 @@ def execute_step(m: Machine, step, prop_of):
                     pm = e.model.p.astype(float)
                     expect = (sr * pm if step["only_scale"] else
                               (sr * pm) @ Rr.T + tr_)
-            r_a, t_a, s = e.obj.align(ref.obj, correct_scale=step["scale"],
-                                      correct_only_scale=step["only_scale"],
-                                      n=step["n"])
+            if step.get("positional"):
+                r_a, t_a, s = e.obj.align(ref.obj, step["scale"],
+                                          step["only_scale"], step["n"])
+            else:
+                r_a, t_a, s = e.obj.align(ref.obj,
+                                          correct_scale=step["scale"],
+                                          correct_only_scale=step["only_scale"],
+                                          n=step["n"])
             receivers.append(e)
             if expect is not None:
                 got = np.array(copy.deepcopy(e.obj).positions_xyz)
@@ -941,7 +952,7 @@ def gen_step(m: Machine, rng, uid):
             if not budget_ok and mode != "prop":
                 return None
             return {"op": op, "uid": uid, "obj": e.uid, "mode": mode,
-                    "T": gen_T(rng, scale)}
+                    "T": gen_T(rng, scale), "positional": rng.random() < 0.3}
         if op == "scale":
             s = rng.choice([0.5, 2.0, 0.1, 10.0, 1.0, 1.5, 0.999, 3.25])
             if not (1e-3 <= e.model.scale_acc * s <= 1e3):
@@ -1013,7 +1024,8 @@ def gen_step(m: Machine, rng, uid):
                 [1, 2, rng.randint(3, max(3, n)), rng.randint(3, max(3, n)),
                  n, n + 5])
             return {"op": op, "uid": uid, "obj": e.uid, "ref": ref.uid,
-                    "scale": cs, "only_scale": only, "n": nn}
+                    "scale": cs, "only_scale": only, "n": nn,
+                    "positional": rng.random() < 0.3}
         if op == "project":
             return {"op": op, "uid": uid, "obj": e.uid,
                     "plane": rng.choice(["xy", "xz", "yz"])}
